@@ -313,27 +313,23 @@ func run(c *lib.Ctx) error {
 		return err
 	}
 
-	var rG, rV *lib.TLCResult
+	var rG *lib.TLCResult
+	var pres []string
 	var bad []lib.BadCase
 	errs := make([]error, 3)
 	lib.Parallel(3, 3, func(i int) {
 		switch i {
 		case 0:
-			r, err := c.TLC("MCNumLit", lib.TLCRun{Dir: dir, Module: "MCNumLit", Workers: 3, Timeout: 14 * time.Minute,
+			r, err := c.TLC("MCNumLit", lib.TLCRun{Dir: dir, Module: "MCNumLit", Workers: 2, Timeout: 14 * time.Minute,
 				Files: map[string][]byte{"MCNumLit.cfg": cfg(fmt.Sprintf("CONSTANT Seed = %d\nCONSTANT Big = %s\n", c.Seed%100000, map[bool]string{true: "TRUE", false: "FALSE"}[c.Thorough()]), "Documented", "SmallDecimal", "Emit")}})
 			if err == nil && r.ErrKind != "" {
 				err = lib.Infra("NumLit.tla: grammar and recogniser disagree: %s %s\n%s", r.ErrName, r.Err, r.ErrTrace)
 			}
 			rG, errs[i] = r, err
 		case 1:
-			r, err := c.TLC("GenNumLit", lib.TLCRun{Dir: dir, Module: "GenNumLit", Workers: 3, Timeout: 14 * time.Minute,
-				Files: map[string][]byte{"cases.ndjson": lib.NDJSON(texts)}})
-			if err == nil && r.ErrKind != "" {
-				err = lib.Infra("GenNumLit failed: %s %s\n%s", r.ErrName, r.Err, r.ErrTrace)
-			}
-			rV, errs[i] = r, err
+			pres, errs[i] = numx.Prescribe(c, "GenNumLit", dir, "GenNumLit", texts, c.Pick(2, 3), 14*time.Minute)
 		case 2:
-			bad, errs[i] = lib.Judge(c, "JudgeRoundTrip", dir, "JudgeRoundTrip", rts, c.Pick(2, 6), 14*time.Minute)
+			bad, errs[i] = lib.Judge(c, "JudgeRoundTrip", dir, "JudgeRoundTrip", rts, c.Pick(2, 3), 14*time.Minute)
 		}
 	})
 	for _, e := range errs {
@@ -370,18 +366,7 @@ func run(c *lib.Ctx) error {
 	c.Set("exhaustive", true)
 
 	// ---- V (a): recorded texts
-	got := map[int]bool{}
-	for _, t := range rV.Tagged("OUT") {
-		if len(t) != 2 {
-			return lib.Infra("bad OUT line")
-		}
-		k, _ := t[0].(int64)
-		js, _ := t[1].(string)
-		idx := int(k) - 1
-		if idx < 0 || idx >= len(texts) || got[idx] {
-			continue
-		}
-		got[idx] = true
+	for idx, js := range pres {
 		lc := texts[idx]
 		lc.Cls = new(class)
 		if err := json.Unmarshal([]byte(js), lc.Cls); err != nil {
@@ -391,14 +376,26 @@ func run(c *lib.Ctx) error {
 			return err
 		}
 	}
-	if len(got) != len(texts) {
-		return lib.Infra("GenNumLit classified %d of %d texts", len(got), len(texts))
-	}
 	c.AddTraces(len(texts))
 	c.Logf("random texts: %d classified and checked", len(texts))
 
 	// ---- V (b): round trips
+	guard := len(rts) - 2
+	nGuard := 0
 	for _, b := range bad {
+		if b.Index >= guard {
+			nGuard++
+		}
+	}
+	if nGuard != 2 {
+		return lib.Infra("vacuity guard: JudgeRoundTrip accepted a corrupted round trip")
+	}
+	rts = rts[:guard]
+	c.Set("vacuity_guard", "two corrupted round trips (sign of zero flipped, integer off by one) were rejected by JudgeRoundTrip")
+	for _, b := range bad {
+		if b.Index >= guard {
+			continue
+		}
 		rc := rts[b.Index]
 		y := "not a number"
 		if rc.Yok {
@@ -474,6 +471,11 @@ func roundTrips(c *lib.Ctx, ev *eval.Evaler) ([]rtCase, error) {
 		}
 	}
 	c.Set("round_trips_through_builtins", direct)
+	// vacuity guard: two corrupted copies (sign of zero flipped; integer off by one) close the list;
+	// the judge must reject both (checked by the caller)
+	z := rtCase{X: toRT(numx.Project(0.0)), S: "0.0", Yok: true, Y: toRT(numx.Project(math.Copysign(0, -1)))}
+	o := rtCase{X: toRT(numx.Project(41)), S: "41", Yok: true, Y: toRT(numx.Project(42))}
+	out = append(out, z, o)
 	return out, nil
 }
 
